@@ -78,6 +78,9 @@ ASSUMPTIONS = [
     "durations is lossy by request and only byte identity is checked",
     "times compared with tolerance half a print step (TextGrid), one frame shift (tokens), exactly (ctm)",
     "real multi-process scheduling: the real pool is run a handful of times for conformance only",
+    "nothing is assumed about how read_trn uses its pool (whether one is created at all, which function is "
+    "mapped, how lines are chunked): only the returned list is compared, for every completion order the "
+    "virtual pool offers; the number of runs in which a pool was created is a counter, not a verdict",
     "large ctm times are not dyadic: start + (end - start) may differ from end in the last bit, so that pass "
     "compares times with relative tolerance 1e-9 (the dyadic passes stay exact)",
     "frame indices are explored up to 2**32 + 2e4 and token ids up to 2**31 + 7 (int64 tensor, float64 seconds); "
@@ -194,12 +197,15 @@ def _trn_eval(ctx, sc, utts, timed, files, pool=None):
             with open(p1, "w") as f:
                 f.write(text)
 
+        used_pool = []
+
         def run(ch):
+            # only the property is demanded (same list for every completion order); whether, how often and
+            # with which function / chunking the implementation uses a pool is its own business
             with VirtualPools(ch) as vp:
                 src = p1 if via == "path" else io.StringIO(text)
                 res = D.read_trn(src, warn=False, processes=procs, chunk_size=cs)
-                if not vp.pools:
-                    raise AssertionError("read_trn(processes>0) did not create a pool (seam missed)")
+                used_pool.append(bool(vp.pools))
                 return res
 
         n = 0
@@ -220,6 +226,7 @@ def _trn_eval(ctx, sc, utts, timed, files, pool=None):
         if n >= 720:
             ctx.capped.append("virtual pool schedules per file capped at 720")
         ctx.count("virtual_pool_schedules", n)
+        ctx.count("virtual_pool_runs_in_which_a_pool_was_created", sum(used_pool))
 
 
 def _trn_items(tier):
